@@ -5,7 +5,7 @@ pid = sys.argv[1]; wt = sys.argv[2]; out = sys.argv[3]
 p = [json.loads(l) for l in open('/verif/properties.jsonl') if json.loads(l)['id'] == pid][0]
 print(f"""You are helping to evaluate a verification effort for the open-source Python library fbcotter/pytorch_wavelets (differentiable 1D/2D DWT, stationary WT, dual-tree complex wavelet transform, DTCWT ScatterNet, on top of PyTorch).
 
-You have your own scratch git worktree of the library at {wt} (work ONLY there; never touch /repo or /verif, and do not read anything under /verif). Python: /venv/bin/python (torch, numpy, pywt, and the reference `dtcwt` NumPy package are installed). There is no network.
+You have your own scratch git worktree of the library at {wt} (work ONLY there; never touch /repo or /verif, and do not read anything under /verif). Python: /venv/bin/python (torch, numpy, pywt, and the reference `dtcwt` NumPy package are installed). There is no network. The machine is shared: always run with `export OMP_NUM_THREADS=2` so torch does not oversubscribe the cores.
 
 Here is a semantic property of the library that should hold:
 
@@ -21,8 +21,8 @@ For each change (call them a and b) deliver, in the directory {out}/{pid}a/ resp
   - notes.txt   : 3-6 lines: what the change is, exactly what is needed for it to manifest, and why the existing tests do not see it.
 
 How to check the existing tests: from the worktree root run
-  cd {wt} && /venv/bin/python -m pytest -q -p no:cacheprovider -x tests/test_dtcwt.py tests/test_dwt1d.py tests/test_dwt.py tests/test_scatnet_fwd.py
-On the unchanged tree this gives 241 passed (the other test files under tests/ fail on the unchanged tree already because a data file is missing: ignore them). The full run takes several minutes, so while iterating run only the most relevant test file, and run the full four-file command once per finished change to confirm 241 passed. Verify yourself: demo passes without the change (use `git stash` or `git apply -R`), fails with it, tests pass with it. Only one change may be applied in the worktree at a time; leave the worktree clean (git checkout -- .) when you finish.
+  cd {wt} && /venv/bin/python -m pytest -q -p no:cacheprovider tests/test_dtcwt.py tests/test_dwt1d.py tests/test_dwt.py tests/test_scatnet_fwd.py
+On the unchanged tree this gives exactly '6 failed, 241 passed' (the 6 failures are NameError: barbara tests in tests/test_dtcwt.py that fail on the unchanged tree too; with your change the result must be the same 241 passed and the same 6 failed; the other test files under tests/ fail on the unchanged tree already because a data file is missing: ignore them). The full run takes several minutes, so while iterating run only the most relevant test file, and run the full four-file command once per finished change to confirm 241 passed. Verify yourself: demo passes without the change (use `git stash` or `git apply -R`), fails with it, tests pass with it. Only one change may be applied in the worktree at a time; leave the worktree clean (git checkout -- .) when you finish.
 
 If the property is already violated by the unchanged library for some inputs, do not rely on that: your change must introduce a NEW violation for inputs on which the unchanged library satisfies the property (the demo must PASS on the unchanged library).
 
